@@ -46,5 +46,5 @@ pub fn strategy() -> BoxedStrategy<Case> {
 }
 
 pub fn plan(tier: Tier) -> Plan<Case> {
-    Plan { strategy: strategy(), check, shrink_iters: 2000, decode_bytes: None, cases: match tier { Tier::Quick => 48_000, Tier::Thorough => 2_400_000 } }
+    Plan { strategy: strategy(), check, shrink_iters: 2000, decode_bytes: None, watchdog_secs: 0, cases: match tier { Tier::Quick => 48_000, Tier::Thorough => 2_400_000 } }
 }
